@@ -202,9 +202,34 @@ def case_slice_idless_insertions():
     return "cube", [tabulate(sch, data)], [t], 100, 0
 
 
+def case_catdate_smoothing():
+    # means by CAT x CAT_DATE with a smoother on the date dimension: smoothed reads next to plain ones
+    sch = S.schema2("g_x_date", S.cat("g", 2, "last", values=[1, 3]), S.cat("d", 3, "first", date=True),
+                    numeric={"measures": ["mean"], "valid_counts": True})
+    data = [((1 + i % 2, 1 + i % 3), 1, 1 + (i * 7) % 4) for i in range(7)]
+    t = {"columns_dimension": {"smoother": {"function": "one_sided_moving_avg", "window": 2}},
+         "rows_dimension": {"insertions": [{"function": "subtotal", "name": "g12", "anchor": "top", "kwargs": {"positive": [1, 2]}}]}}
+    return "cube", [tabulate(sch, data)], [t], 1000, 0
+
+
+def case_catdate_counts_smoothing():
+    sch = S.schema2("g_x_date_counts", S.cat("g", 2, "last", values=[1, 3]), S.cat("d", 3, "first", date=True), weighted=True)
+    data = [((1 + i % 2, 1 + (i // 2) % 3), 1 + i % 2, None) for i in range(8)]
+    t = {"columns_dimension": {"smoother": {"function": "one_sided_moving_avg", "window": 2}}}
+    return "cube", [tabulate(sch, data)], [t], 1000, 0
+
+
+def case_catdate_strand():
+    # categorical-date strand with population estimates (all-ones population proportions) and a subtotal
+    sch = Schema("date_1d", [S.cat("d", 3, "first", date=True)], [("cat", 0)], weighted=True)
+    data = [((1 + i % 3,), 1 + i % 2, None) for i in range(5)]
+    t = {"rows_dimension": {"insertions": [{"function": "subtotal", "name": "w12", "anchor": "bottom", "kwargs": {"positive": [1, 2]}}]}}
+    return "cube", [tabulate(sch, data)], [t], 1000, 0
+
+
 CASES = [case_strand_with_difference, case_slice_idless_insertions, case_cat_x_mr, case_mr_x_cat_sorted, case_3d_cat_mr_mr, case_3d_mr_cat_cat, case_ca, case_numarr,
          case_datetime, case_cat_view_insertions, case_json_text, case_tabbook, case_numeric_summary,
-         case_ca_as_0th, case_single_col_filter]
+         case_ca_as_0th, case_single_col_filter, case_catdate_smoothing, case_catdate_counts_smoothing, case_catdate_strand]
 SCHEMAS = {}
 
 # ------------------------------------------------------------------------ reading
